@@ -181,7 +181,7 @@ macro_rules! limit_concrete_unit {
     };
 }
 fn ok_forget<T, E>(r: core::result::Result<T, E>) -> bool { let ok = r.is_ok(); core::mem::forget(r); ok }
-// @unit C10.limit.member_name props=C10 kind=instance bound=concrete-names-of-255-and-256-bytes fn=zbus_names::member_name::validate_bytes,<zbus_names::MemberName.as.TryFrom<&str>>::try_from timeout=900
+// @unit C10.limit.member_name props=C10 kind=instance bound=concrete-names-of-255-and-256-bytes tier=thorough fn=zbus_names::member_name::validate_bytes,<zbus_names::MemberName.as.TryFrom<&str>>::try_from timeout=900
 #[cfg(not(verif_skip_c10_limit_member_name__c255))]
 limit_concrete_unit!(c10_limit_member_name__c255, b'a', b'a', b'a', b'a',
     |s| crate::member_name::validate_bytes(s.as_bytes()).is_ok() && ok_forget(MemberName::try_from(s)),
